@@ -66,6 +66,19 @@ Proof.
   apply slice_partition. lia.
 Qed.
 
+Lemma ez_unpack_auth_only_if_valid_l m data pk args :
+  ez_unpack_auth key_ok verify siglen m data = Ok (Invoke pk args) ->
+  exists n o,
+    unpack key_ok auth_fmt data 23 = Ok (VBytes pk, o)
+    /\ siglen pk = Ok n
+    /\ verify pk (slice data None (Some (- Z.of_nat n))) (slice data (Some (- Z.of_nat n)) None) = true
+    /\ slice data None (Some (- Z.of_nat n)) ++ slice data (Some (- Z.of_nat n)) None = data.
+Proof.
+  intros H. unfold ez_unpack_auth in H.
+  destruct (auth_only_if_valid_l _ data pk args H) as (n & o & H1 & H2 & H3 & H4 & _).
+  exists n, o. repeat split; assumption.
+Qed.
+
 (* the peer object handed to the handler carries the authenticated key, whether it comes from the
    verified-peer index (whose entries are filed under their own key) or is created fresh *)
 Lemma peer_is_key_l index pk :
